@@ -132,21 +132,33 @@ def _kern(g, scale):
     r = g.r
     for _ in range(int(60 * scale)):
         a, b = rand_set(g), rand_set(g)
-        if r.random() < 0.3:
-            # related operands: b = a shifted / a subset / identical
+        related = r.random() < 0.35
+        if related:
+            # related operands: b = a shifted / a subset / identical / a strict prefix or suffix of b's values
             c = r.random()
-            if c < 0.4:
+            if c < 0.3:
                 b = list(a)
-            elif c < 0.7:
+            elif c < 0.5:
                 b = [iv for iv in a if r.random() < 0.6]
-            else:
+            elif c < 0.65:
                 b = [(x + 1, y + 1) for x, y in a if y + 1 < CH]
+            elif c < 0.85 and a and a[-1][1] + 2 < CH:
+                top = a[-1][1]
+                b = ivs_union(list(a), [(v, v) for v in sorted(set(min(CH - 1, top + d) for d in r.sample([2, 3, 5, 100, 1000, 40000], 2)))])
+                g.count("kern:prefix-related")
+                if r.random() < 0.5:
+                    a, b = b, a
+            elif a and a[0][0] >= 2:
+                b = ivs_union([(r.choice([0, a[0][0] - 2]),) * 2], list(a))
+                g.count("kern:suffix-related")
+                if r.random() < 0.5:
+                    a, b = b, a
         for ka in ("A", "B", "R"):
             for kb in ("A", "B", "R"):
                 if card(a) == 0 or card(b) == 0:
                     continue
                 ca, cb = render(g, a, ka), render(g, b, kb)
-                for op in r.sample(BIN, 5):
+                for op in (r.sample(BIN[:-1], 4) + ["equals"]) if related else r.sample(BIN, 5):
                     g.emit("kern %s %s %s" % (op, ca, cb))
                     g.count("kop:" + op)
 
@@ -416,3 +428,35 @@ def _kernthresh(g, scale):
             if cb is not None and len(R) > 1:
                 g.emit("kern iaddRange %s - %d %d" % (cb, R[-1][0], R[-1][1] + 1))
                 g.emit("kernwf inot %s - %d %d" % (cb, R[-1][0], R[-1][1] + 1))
+
+
+@suite("eqpairs")
+def _eqpairs(g, scale):
+    """C03: Equals in BOTH orders on bitmaps with the same chunk keys whose contents are identical / a strict prefix / a strict
+    suffix / differ in one middle value, for every pairing of container kinds (forced through mkrepr)"""
+    r = g.r
+    for _ in range(int(10 * scale)):
+        a = rand_set(g)
+        if not a:
+            continue
+        variants = [("same", list(a))]
+        if a[-1][1] + 3 < CH:
+            variants.append(("prefix", ivs_union(list(a), [(a[-1][1] + r.choice([2, 3]),) * 2, (min(CH - 1, a[-1][1] + r.choice([5, 300, 20000])),) * 2])))
+        if a[0][0] >= 2:
+            variants.append(("suffix", ivs_union([(r.choice([0, a[0][0] - 2]),) * 2], list(a))))
+        if a[0][1] > a[0][0] + 1:
+            m = r.randrange(a[0][0] + 1, a[0][1])
+            variants.append(("hole", [(a[0][0], m - 1), (m + 1, a[0][1])] + list(a[1:])))
+        common = rand_set(g)
+        k0, k1 = sorted(r.sample(range(0, 65536), 2)) if r.random() < 0.7 else (65534, 65535)
+        for cls, b in variants:
+            for ka in ("A", "B", "R"):
+                for kb in ("A", "B", "R"):
+                    ca, cb = render(g, a, ka), render(g, b, kb)
+                    x, y = g.fresh("q"), g.fresh("q")
+                    lead = ("%d:%s;" % (k0, render(g, common))) if common and r.random() < 0.6 else ""
+                    g.emit("mkrepr %s cow=0;%s%d:%s" % (x, lead, k1, ca))
+                    g.emit("mkrepr %s cow=0;%s%d:%s" % (y, lead, k1, cb))
+                    g.emit("eq %s %s" % (x, y))
+                    g.emit("eq %s %s" % (y, x))
+                    g.count("eqpairs:" + cls)
